@@ -476,3 +476,35 @@ def ground_and_bounded(ctx):
             fails.append({"input": {"records": nrec, "sizes": [len(mm) for mm in mols]}, "observed": obs,
                           "clause": "an SDF file holding several records yields one molecule per record, in order", "key": "multi-record"})
     ctx.add_bounded("molecule.Molecule.load/bounded/multi_record_sdf", "2, 3 and 5 concatenated records of 1..11 atoms", ev, ev, fails, rule="record counts")
+
+    # a molecule that was itself loaded (with and without the retained record text), then modified, then saved: the file describes the CURRENT molecule
+    fails, ev = [], 0
+    for n in (1, 3, 7):
+        for fmt in ("sdf", "xyz"):
+            for keep in (False, True):
+                try:
+                    m0 = Molecule([Element[syms_all[int(j)]] for j in rng.integers(0, 30, size=n)], rng.uniform(-5, 5, (n, 3)))
+                    d = tempfile.mkdtemp(prefix="c16r_")
+                    p1, p2 = os.path.join(d, "a." + fmt), os.path.join(d, "b." + fmt)
+                    m0.save(p1)
+                    m1 = Molecule.load(p1, **({"keep_sdf_text": True} if (keep and fmt == "sdf") else {}))
+                    shift = np.array([1.25, -2.5, 0.75])
+                    m1.translate(shift)
+                    m2 = m1.translated(shift)
+                    m1.save(p1)
+                    m2.save(p2)
+                    b1, b2 = Molecule.load(p1), Molecule.load(p2)
+                    for f_ in (p1, p2):
+                        os.unlink(f_)
+                    os.rmdir(d)
+                    tol = 0.5001e-4 if fmt == "sdf" else 1e-9
+                    ok = np.allclose(b1.positions, m0.positions + shift, atol=2 * tol) and np.allclose(b2.positions, m0.positions + 2 * shift, atol=2 * tol)
+                    obs = {"max_error_after_modification": float(max(np.abs(b1.positions - m0.positions - shift).max(), np.abs(b2.positions - m0.positions - 2 * shift).max()))}
+                except Exception as e:  # noqa
+                    ok, obs = False, {"exception": repr(e)[:200]}
+                ev += 1
+                if not ok and len(fails) < 2:
+                    fails.append({"input": {"atoms": n, "format": fmt, "loaded_with_keep_sdf_text": keep, "history": "save, load, translate / translated, save, load"}, "observed": obs,
+                                  "clause": "saving a loaded-then-moved molecule writes its current coordinates", "key": "reloaded_modified"})
+    ctx.add_bounded("molecule.Molecule.save_load/bounded/loaded_then_modified", "1, 3, 7 atoms; sdf (with and without keep_sdf_text) and xyz; translate in place and translated copy before saving again",
+                    ev, ev, fails, rule="(size, format, keep) combinations")
